@@ -501,7 +501,7 @@ func condInspectsStateStack(cond ssa.Value) bool {
 			continue
 		}
 		en := namedOf(sl.Elem())
-		if en == nil || !strings.HasPrefix(strings.ToLower(en.Obj().Name()), "state") {
+		if en == nil || !strings.HasPrefix(strings.ToLower(core.TypeName(en)), "state") {
 			continue
 		}
 		for _, o := range origins(arg) {
@@ -855,8 +855,8 @@ func topLevelDone(p *core.Prog, r *core.Result, pkgs []string) {
 		if err != nil {
 			continue
 		}
-		sp := p.SPkgs[pk]
-		nc, _ := sp.Members[idleStateConst[pk]].(*ssa.NamedConst)
+		_ = p.SPkgs[pk]
+		nc := p.Const(pk, idleStateConst[pk])
 		if nc == nil {
 			r.Undecided(".TOP-LEVEL-DONE", pk+"."+idleStateConst[pk], "idle state constant not found")
 			continue
@@ -908,7 +908,7 @@ func (k *fsClient) Phis(s fsState, _ *ssa.BasicBlock, _ int) fsState { return s 
 func (k *fsClient) Return(fsState, *ssa.Return)                      {}
 func isStepValue(v ssa.Value) bool {
 	n, ok := v.Type().(*types.Named)
-	return ok && n.Obj().Name() == "stateStep"
+	return ok && core.TypeName(n) == "stateStep"
 }
 func (k *fsClient) Branch(s fsState, cond ssa.Value, outcome bool) (fsState, bool) {
 	if bo, ok := cond.(*ssa.BinOp); ok && (bo.Op == token.EQL || bo.Op == token.NEQ) && isStepValue(bo.X) {
@@ -992,7 +992,7 @@ func finalizerSteps(p *core.Prog, r *core.Result) {
 	stepName := map[int64]string{}
 	for name, m := range p.SPkgs["ubjson"].Members {
 		if nc, ok := m.(*ssa.NamedConst); ok {
-			if n, ok := nc.Type().(*types.Named); ok && n.Obj().Name() == "stateStep" {
+			if n, ok := nc.Type().(*types.Named); ok && core.TypeName(n) == "stateStep" {
 				if v, ok := constIntVal(nc.Value); ok {
 					stepName[v] = name
 				}
